@@ -236,7 +236,7 @@ func (x *parserExec) step(op POp) {
 	case "parse":
 		x.doParse(op)
 	case "parsenil":
-		x.doParseNil()
+		x.doParseNil(op)
 	case "shrink":
 		x.doShrink()
 	case "reset":
@@ -527,10 +527,12 @@ func (x *parserExec) doByteAt(op POp) {
 	}
 }
 
-func (x *parserExec) doParseNil() {
+func (x *parserExec) doParseNil(op POp) {
 	var n int
 	var err error
-	if x.call("Parse(nil)", []string{"C16"}, func() { n, err = x.p.Parse(nil, 0) }) {
+	// the flags have no meaning without a block: Parse(nil, flags) consumes
+	// like Parse(nil, 0)
+	if x.call("Parse(nil)", []string{"C16"}, func() { n, err = x.p.Parse(nil, op.Flags) }) {
 		return
 	}
 	if x.keepRes {
@@ -660,8 +662,8 @@ func (x *parserExec) doParse(op POp) {
 			x.report("C14", "Parse returned n=%d but the block at %d expands to %d bytes", n, x.w, len(out))
 		}
 	}
-	if op.Flags == 0 && int64(n) != blk.Len() {
-		x.report("C03", "flags 0: n=%d != Block.Len()=%d", n, blk.Len())
+	if op.Flags&lz.NoTrailingLiterals == 0 && int64(n) != blk.Len() {
+		x.report("C03", "without NoTrailingLiterals: n=%d != Block.Len()=%d", n, blk.Len())
 	}
 	m := minInt(len(out), un)
 	if !bytesEqual(out[:m], x.fed[x.w:x.w+m]) {
